@@ -22,7 +22,13 @@ def key_of(step, clause):
     if step['op'] == 'measured':
         tot = float(sum(a['z9'])) or 1.
         trace = any(0 < v / tot < 1e-5 for v in a['z9'])
-        return 'BubbleDew:measured:%s,%s,%s:%s' % (a['family'], 'ideal' if a['ideal'] else ('gamma+poynting' if a.get('pcf') else 'gamma'), 'trace' if trace else 'plain', clause)
+        # strongly non-ideal compositions under an activity model: a pair with a miscibility gap, or water with a C3 / C4 alcohol
+        # (azeotrope, water / butanol gap) - the input class of the recorded dew-solver findings
+        amount = {i: v / tot for i, v in zip(a['ids'], a['z9'])}
+        present = {i for i, v in amount.items() if v > 1e-5}
+        nonideal = not a['ideal'] and len(present) > 1 and (a['family'] == 'partly_miscible' or ('Water' in present and present & {'Propanol', 'Butanol'}))
+        cls = ('trace' if trace else 'plain') + (',nonideal' if nonideal else '')
+        return 'BubbleDew:measured:%s,%s,%s:%s' % (a['family'], 'ideal' if a['ideal'] else ('gamma+poynting' if a.get('pcf') else 'gamma'), cls, clause)
     return 'BubbleDew:%s:scaled=%s,permuted=%s,n=%d:%s' % (step['op'], a['scaled'], a['permuted'], sum(1 for v in a['w'] if v), clause)
 
 
@@ -62,9 +68,9 @@ def measured_case(seed):
     rng = random.Random(seed)
     n = len(db.A)
     fam = rng.choice(sorted(db.FAMILIES))
-    ideal = rng.random() < 0.4
+    ideal = rng.random() < 0.4 and fam != 'partly_miscible'
     pcf = (not ideal) and rng.random() < 0.4
-    ids = rng.sample(db.FAMILIES[fam], rng.randint(1, 5))
+    ids = rng.sample(db.FAMILIES[fam], rng.randint(1, len(db.FAMILIES[fam])))
     z = [rng.choice([0.02 + rng.random(), 0.02 + rng.random(), 1e-6, 0.]) for _ in ids]
     if sum(1 for v in z if v > 0) == 0:
         z[0] = 1.
